@@ -182,6 +182,13 @@ func (p *bProc) stop() {
 }
 
 func (p *bProc) dial(carriers []string, tok string) (*websocket.Conn, error) {
+	ws, _, err := p.dialRaw(carriers, tok)
+	return ws, err
+}
+
+// dialRaw also returns the TCP connection, so that a client can drop the
+// transport without a WebSocket close frame.
+func (p *bProc) dialRaw(carriers []string, tok string) (*websocket.Conn, net.Conn, error) {
 	u := "ws://" + p.addr + "/"
 	for _, c := range carriers {
 		if c == "query" {
@@ -190,7 +197,7 @@ func (p *bProc) dial(carriers []string, tok string) (*websocket.Conn, error) {
 	}
 	cfg, err := websocket.NewConfig(u, "http://localhost")
 	if err != nil {
-		return nil, err
+		return nil, nil, err
 	}
 	for _, c := range carriers {
 		switch c {
@@ -201,7 +208,16 @@ func (p *bProc) dial(carriers []string, tok string) (*websocket.Conn, error) {
 		}
 	}
 	cfg.Header.Set("posemesh-client-id", "b-client")
-	return websocket.DialConfig(cfg)
+	tc, err := net.DialTimeout("tcp", p.addr, 5*time.Second)
+	if err != nil {
+		return nil, nil, err
+	}
+	ws, err := websocket.NewClient(cfg, tc)
+	if err != nil {
+		tc.Close()
+		return nil, nil, err
+	}
+	return ws, tc, nil
 }
 
 func (p *bProc) validToken() string {
@@ -507,7 +523,9 @@ func TestC19Binary(t *testing.T) {
 		n := 1 + uni(rt, "n", 6)
 		var want []string
 		valid, bad := 0, 0
-		key := func(r ncsclient.ReceiptPayload) string { return fmt.Sprintf("%q/%x/%x", r.Receipt, r.Hash, r.Signature) }
+		key := func(r ncsclient.ReceiptPayload) string {
+			return fmt.Sprintf("%q/%x/%x", r.Receipt, r.Hash, r.Signature)
+		}
 		pool := []string{fmt.Sprintf("run-%d-a", run), fmt.Sprintf("run-%d-b", run)}
 		for i := 0; i < n; i++ {
 			rp, class := genTriple(rt, pool)
@@ -608,7 +626,7 @@ func TestC08Binary(t *testing.T) {
 			rt.Skip("witness join not answered")
 		}
 		sid := rx[len(rx)-1].M.(*hagallpb.ParticipantJoinResponse).SessionId
-		h, err := p.dial([]string{"header"}, tok)
+		h, htcp, err := p.dialRaw([]string{"header"}, tok)
 		if err != nil {
 			rt.Skip("dial failed")
 		}
@@ -663,9 +681,7 @@ func TestC08Binary(t *testing.T) {
 			}
 		}
 		if uni(rt, "abort", 2) == 0 {
-			if tc, ok := rawConn(h); ok {
-				tc.Close()
-			}
+			htcp.Close()
 			desc = append(desc, "abort")
 		} else {
 			h.Close()
@@ -711,11 +727,6 @@ func TestC08Binary(t *testing.T) {
 		}
 		fresh.Close()
 	})
-}
-
-func rawConn(ws *websocket.Conn) (net.Conn, bool) {
-	// x/net/websocket does not expose the transport; closing the read side via deadline is the closest to an abort
-	return nil, false
 }
 
 func rawWrite(ws *websocket.Conn, b []byte) {
